@@ -30,7 +30,7 @@ CLASS_LAYER = [PA + 'Pauli.__matmul__#Pauli', PA + 'Pauli.__neg__', PA + 'Pauli.
                'pyclifford/circuit.py::CliffordGate.forward#map_global'] + GATES[3:] + LOCAL_GATES + LOCAL_STATE + \
               [PA + '%s.__rmul__#%s' % (c, t) for c in ('Pauli', 'PauliList') for t in ('1', 'i', 'm1', 'mi')] + \
               [PA + 'pauli#codes', PA + 'pauli#chars', PA + 'pauli#str', PA + 'PauliList.__getitem__#mask', PA + 'PauliList.__getitem__#slice', PA + 'PauliList.__getitem__#index'] + \
-              RANDOM_STATE + RANDOM_CLIFFORD[:2] + CASTS + POLY_SEL + MBACK + ['pyclifford/circuit.py::CliffordGate.copy#generator', 'pyclifford/circuit.py::CliffordGate.copy#maps', ST + 'StabilizerState.sample', ST + 'stabilizer_state#list', ST + 'random_bit_state', ST + 'random_bit_state_gs_ps'] + ANY_GATE + ['pyclifford/circuit.py::CliffordGate.compile#forward_only', 'pyclifford/circuit.py::CliffordGate.compile#backward_only', 'pyclifford/circuit.py::CliffordGate.compile#any']
+              RANDOM_STATE + RANDOM_CLIFFORD[:2] + CASTS + POLY_SEL + MBACK + ['pyclifford/circuit.py::CliffordGate.copy#generator', 'pyclifford/circuit.py::CliffordGate.copy#maps', ST + 'StabilizerState.sample', ST + 'stabilizer_state#list', ST + 'random_bit_state', ST + 'random_bit_state_gs_ps'] + ANY_GATE + ['pyclifford/circuit.py::CliffordGate.compile#forward_only', 'pyclifford/circuit.py::CliffordGate.compile#backward_only', 'pyclifford/circuit.py::CliffordGate.compile#any', 'pyclifford/circuit.py::CliffordGate.copy#any']
 
 # every kernel that currently has a discharged contract (their frame.* obligations are the C17 frame conditions)
 MEASURE_LEMMAS = ['ordp_parity', 'xzpartial_full', 'selacq_map', 'selacq_image', 'partnersum_acq', 'transform_preserves_acq', 'acq_diff2', 'onsite_flat', 'acq_bilinear', 'acq_antisym', 'ipow_parity', 'ordg_bits', 'acq_zero', 'ordg_acq', 'selacq_gram', 'acqsum_ext',
